@@ -31,6 +31,7 @@ import DPL.Proofs.ToolsCompose
 import DPL.Proofs.ToolsCompose2
 import DPL.Proofs.ToolsComposeGeom
 import DPL.Proofs.KernelBridge
+import DPL.Proofs.KernelBridge2
 
 namespace DPL.C07
 open DPL DPL.Tools
@@ -1024,6 +1025,116 @@ example (S : Set ℝ) (hS : MeasurableSet S) :
       ENNReal.ofReal (Real.exp 1) * Discrete.unif01 (Tools.countRun 2 1 [5, 3] ⁻¹' S) := by
   have := count_tool_end_to_end 1 (by norm_num) [] [3] 0 5 S hS
   simpa using this
+
+/-! ### more than one invocation: independent blocks of draws (`Measure.pi`), block `i` feeds call `i` -/
+
+/-- **the law of a sequence of `k` one-invocation plans is the law of the run on `k` independent blocks of draws**:
+if on every configured call the kernel is the push-forward of `ν` (one block) under the sampler `samp`, the output law
+of `Plan.seq` is the push-forward of `ν^k` under `PM.runCells` (`List.ofFn fun i => gᵢ (samp cᵢ (inpᵢ D) (ω i))`) -/
+theorem law_seq_eq_pi_run {δ Ω : Type} [MeasurableSpace Ω] (ν : Measure Ω) [IsProbabilityMeasure ν]
+    (M : MechCall ℝ → ℝ → Measure ℝ) (hprob : ∀ c a, IsProbabilityMeasure (M c a))
+    (samp : MechCall ℝ → ℝ → Ω → ℝ) {k : ℕ} (f : Fin k → Tools.Cell δ ℝ ℝ)
+    (hM : ∀ i a, M (f i).c a = ν.map (samp (f i).c a)) (hs : ∀ i a, Measurable (samp (f i).c a))
+    (hg : ∀ i, Measurable (f i).g) (D : δ) :
+    (Plan.seq (List.ofFn fun i => (f i).plan)).law M D
+      = (Measure.pi fun _ : Fin k => ν).map (PM.runCells samp f D) :=
+  PM.law_seq_eq_pi_run ν M hprob samp f hM hs hg D
+
+/-- non-vacuity: two `LaplaceTruncated` cells under `truncLapKernel`, blocks of four uniforms -/
+example (D : List ℝ) :
+    (Plan.seq (List.ofFn fun i : Fin 2 => (Tools.meanMk 2 3 1 0 1).plan)).law PM.truncLapKernel D
+      = (Measure.pi fun _ : Fin 2 => Smp.unif01x4).map
+          (PM.runCells PM.truncLapSampler (fun _ : Fin 2 => Tools.meanMk 2 3 1 0 1) D) :=
+  law_seq_eq_pi_run Smp.unif01x4 PM.truncLapKernel PM.truncLapKernel_isProb PM.truncLapSampler _
+    (fun _ a => PM.truncLapKernel_eq_sampler_law _ (by norm_num [Tools.meanMk]) (by norm_num [Tools.meanMk]) rfl
+      (by norm_num [Tools.meanMk]) a)
+    (fun _ _ => PM.measurable_truncLapSampler _ _) (fun _ => measurable_id) D
+
+/-- the output law of `mean(axis=…)` / `sum(axis=…)` is the law of the run (cell `c`: `meanRun` / `sumRun` on column `c`
+with `ε/size`, the cell's bounds and the `c`-th block of four uniforms) under `size` independent blocks -/
+theorem axis_tool_law_eq_run (size n : ℕ) (hsize : 0 < size) (ε : ℝ) (hε : 0 < ε) (bounds : ℕ → ℝ × ℝ)
+    (hb : ∀ c, (bounds c).1 ≤ (bounds c).2) (D : List (List ℝ)) :
+    (wrapAxis 0 size ε bounds (meanPlan n)).law PM.truncLapKernel D
+      = (Measure.pi fun _ : Fin size => Smp.unif01x4).map (Tools.meanAxisRun size n ε bounds D) ∧
+    (wrapAxis 0 size ε bounds (sumPlan n)).law PM.truncLapKernel D
+      = (Measure.pi fun _ : Fin size => Smp.unif01x4).map (Tools.sumAxisRun size n ε bounds D) :=
+  ⟨Tools.meanAxis_law_eq_run size n hsize ε hε bounds hb D, Tools.sumAxis_law_eq_run size n hsize ε hε bounds hb D⟩
+
+/-- **`mean(axis=…)`, from `4·size` uniform draws to the released vector, is ε-DP**: neighbouring records × cells
+matrices, every measurable set of output vectors; probability over `size` independent blocks of four uniforms -/
+theorem mean_axis_tool_end_to_end (size : ℕ) (hsize : 0 < size) (ε : ℝ) (hε : 0 < ε) (bounds : ℕ → ℝ × ℝ)
+    (hb : ∀ c, (bounds c).1 ≤ (bounds c).2) (pre post : List (List ℝ)) (r r' : List ℝ)
+    (S : Set (List ℝ)) (hS : MeasurableSet S) :
+    (Measure.pi fun _ : Fin size => Smp.unif01x4)
+        (Tools.meanAxisRun size (pre ++ r :: post).length ε bounds (pre ++ r :: post) ⁻¹' S) ≤
+      ENNReal.ofReal (Real.exp ε) * (Measure.pi fun _ : Fin size => Smp.unif01x4)
+        (Tools.meanAxisRun size (pre ++ r :: post).length ε bounds (pre ++ r' :: post) ⁻¹' S) := by
+  have key := mean_axis_tool_dp_laplace size hsize ε hε bounds hb pre post r r' S hS
+  rw [Tools.meanAxis_law_eq_run size _ hsize ε hε bounds hb, Tools.meanAxis_law_eq_run size _ hsize ε hε bounds hb,
+    Measure.map_apply (Tools.measurable_meanAxisRun _ _ _ _ _) hS,
+    Measure.map_apply (Tools.measurable_meanAxisRun _ _ _ _ _) hS] at key
+  exact key
+
+/-- non-vacuity: two cells with different bounds, two records -/
+example (S : Set (List ℝ)) (hS : MeasurableSet S) :
+    (Measure.pi fun _ : Fin 2 => Smp.unif01x4)
+        (Tools.meanAxisRun 2 2 1 (fun c => ((0 : ℝ), (c : ℝ) + 1)) [[0, 0], [1, 2]] ⁻¹' S) ≤
+      ENNReal.ofReal (Real.exp 1) * (Measure.pi fun _ : Fin 2 => Smp.unif01x4)
+        (Tools.meanAxisRun 2 2 1 (fun c => ((0 : ℝ), (c : ℝ) + 1)) [[1, 2], [1, 2]] ⁻¹' S) := by
+  have := mean_axis_tool_end_to_end 2 (by norm_num) 1 (by norm_num) (fun c => ((0 : ℝ), (c : ℝ) + 1))
+    (by intro c; simp; positivity) [] [[1, 2]] [0, 0] [1, 2] S hS
+  simpa using this
+
+/-- **`sum(axis=…)`, from `4·size` uniform draws to the released vector, is ε-DP** -/
+theorem sum_axis_tool_end_to_end (size : ℕ) (hsize : 0 < size) (ε : ℝ) (hε : 0 < ε) (bounds : ℕ → ℝ × ℝ)
+    (hb : ∀ c, (bounds c).1 ≤ (bounds c).2) (pre post : List (List ℝ)) (r r' : List ℝ)
+    (S : Set (List ℝ)) (hS : MeasurableSet S) :
+    (Measure.pi fun _ : Fin size => Smp.unif01x4)
+        (Tools.sumAxisRun size (pre ++ r :: post).length ε bounds (pre ++ r :: post) ⁻¹' S) ≤
+      ENNReal.ofReal (Real.exp ε) * (Measure.pi fun _ : Fin size => Smp.unif01x4)
+        (Tools.sumAxisRun size (pre ++ r :: post).length ε bounds (pre ++ r' :: post) ⁻¹' S) := by
+  have key := sum_axis_tool_dp_laplace size hsize ε hε bounds hb pre post r r' S hS
+  rw [Tools.sumAxis_law_eq_run size _ hsize ε hε bounds hb, Tools.sumAxis_law_eq_run size _ hsize ε hε bounds hb,
+    Measure.map_apply (Tools.measurable_sumAxisRun _ _ _ _ _) hS,
+    Measure.map_apply (Tools.measurable_sumAxisRun _ _ _ _ _) hS] at key
+  exact key
+
+example (S : Set (List ℝ)) (hS : MeasurableSet S) :
+    (Measure.pi fun _ : Fin 2 => Smp.unif01x4)
+        (Tools.sumAxisRun 2 2 1 (fun c => ((0 : ℝ), (c : ℝ) + 1)) [[0, 0], [1, 2]] ⁻¹' S) ≤
+      ENNReal.ofReal (Real.exp 1) * (Measure.pi fun _ : Fin 2 => Smp.unif01x4)
+        (Tools.sumAxisRun 2 2 1 (fun c => ((0 : ℝ), (c : ℝ) + 1)) [[1, 2], [1, 2]] ⁻¹' S) := by
+  have := sum_axis_tool_end_to_end 2 (by norm_num) 1 (by norm_num) (fun c => ((0 : ℝ), (c : ℝ) + 1))
+    (by intro c; simp; positivity) [] [[1, 2]] [0, 0] [1, 2] S hS
+  simpa using this
+
+/-- **`histogram*` (unweighted), from one uniform draw per bin to the released counts, is `2ε`-DP** (`ε` when the
+record enters or leaves the range, `0` when it stays in its bin): probability over independent `unif01` draws, one per
+bin; the run (`Tools.histRun`) feeds draw `i` to the `GeometricTruncated(ε, 1, 0, maxsize)` invocation of bin `i`.
+The sampler is `Tools.geomSamplerT`: `Geometric.randomise` then the clamp on `[0,1)` (`Tools.geomSamplerT_eq`), the
+value 0 off the range of `random()` — the measurable version of `PM.geomSampler` -/
+theorem hist_tool_end_to_end (edges : List (List ℝ)) (ε maxsize : ℝ) (hε : 0 < ε) (pre post : List (WRow ℝ))
+    (r r' : WRow ℝ) (S : Set (List ℝ)) (hS : MeasurableSet S) :
+    let μ := Measure.pi fun _ : Fin (Tools.histCells edges false ε maxsize).length => Discrete.unif01
+    let run := Tools.histRun edges ε maxsize
+    μ (run (pre ++ r :: post) ⁻¹' S) ≤ ENNReal.ofReal (Real.exp (ε * 2)) * μ (run (pre ++ r' :: post) ⁻¹' S) ∧
+    ((binOf edges r.x = none ∨ binOf edges r'.x = none) →
+      μ (run (pre ++ r :: post) ⁻¹' S) ≤ ENNReal.ofReal (Real.exp ε) * μ (run (pre ++ r' :: post) ⁻¹' S)) ∧
+    (binOf edges r.x = binOf edges r'.x → μ (run (pre ++ r :: post) ⁻¹' S) ≤ μ (run (pre ++ r' :: post) ⁻¹' S)) := by
+  have key := hist_tool_dp_geometric edges ε maxsize hε pre post r r' S hS
+  simp only [Tools.hist_law_eq_run edges ε maxsize hε,
+    Measure.map_apply (Tools.measurable_histRun edges ε maxsize hε _) hS] at key
+  exact key
+
+/-- non-vacuity: one dimension, two bins — two independent draws; the record moves from the first bin to the second -/
+example (S : Set (List ℝ)) (hS : MeasurableSet S) :
+    let μ := Measure.pi fun _ : Fin (Tools.histCells [[(0 : ℝ), 1, 2]] false 1 10).length => Discrete.unif01
+    μ (Tools.histRun [[(0 : ℝ), 1, 2]] 1 10 [⟨[1 / 2], 1⟩] ⁻¹' S) ≤
+      ENNReal.ofReal (Real.exp (1 * 2)) * μ (Tools.histRun [[(0 : ℝ), 1, 2]] 1 10 [⟨[3 / 2], 1⟩] ⁻¹' S) :=
+  (hist_tool_end_to_end [[(0 : ℝ), 1, 2]] 1 10 (by norm_num) [] [] ⟨[1 / 2], 1⟩ ⟨[3 / 2], 1⟩ S hS).1
+
+example : (Tools.histCells [[(0 : ℝ), 1, 2]] false 1 10).length = 2 := by
+  simp [Tools.histCells, cellsOf]
 
 end EndToEnd
 
